@@ -83,10 +83,7 @@ func (g *gen) btok(mode byte) (string, *gping) {
 	p := g.nextP
 	g.nextP++
 	ms := g.tmo[g.rng.Intn(len(g.tmo))]
-	fam := "b4"
-	if g.rng.Bool() {
-		fam = "b6"
-	}
+	fam := []string{"b4", "b6", "b4", "b6", "br"}[g.rng.Intn(5)]
 	q := &gping{p: p, mode: mode}
 	if mode != 'g' {
 		q.done = true
@@ -144,13 +141,20 @@ func (g *gen) beginAnswered() {
 	}
 	g.emit("q" + f[0][1:] + "." + f[1] + "." + f[3])
 	for n := 1 + g.rng.Intn(2); n > 0; n-- {
-		g.emit(g.ftok(q, wantWake))
+		t := g.ftok(q, wantWake)
+		g.emit(t)
+		if g.rng.Chance(30) { // the same reply twice or three times while the call is still inside its send
+			g.emit(t)
+			if g.rng.Bool() {
+				g.emit(t)
+			}
+		}
 		wantWake = g.rng.Bool()
 	}
 	if !q.replied && effMs(t) >= 1000 { // never wait out a default
-		name := "rep4"
+		name := "dst4"
 		if f[0] == "b6" {
-			name = "rep6"
+			name = "dst6"
 		}
 		g.emit(fmt.Sprintf("f.%s.%d.0.%d", name, q.p, g.rng.Intn(1000)))
 		q.replied = true
@@ -205,7 +209,15 @@ func (g *gen) frame(wantWake bool) {
 		g.emit("rp:" + g.ftok(q, wantWake) + "|" + g.ftok(q2, g.rng.Bool()))
 		return
 	}
-	g.emit(g.ftok(q, wantWake))
+	t := g.ftok(q, wantWake)
+	g.emit(t)
+	if g.rng.Chance(25) { // duplicate replies back to back (a second close of the wakeup channel would panic)
+		for n := 1 + g.rng.Intn(2); n > 0; n-- {
+			g.emit(t)
+		}
+	} else if g.rng.Chance(8) {
+		g.emit("rp:" + t + "|" + t) // ... and concurrently
+	}
 }
 
 func (g *gen) snap() { g.settle(); g.emit("s") }
@@ -307,6 +319,33 @@ func generate(r *lib.Run, rng *lib.Rand) []scenario {
 	// (compared against the model through the compressed event x.65535 = BulkFail 65535)
 	scs = append(scs, scenario{next0: 40000, class: "wrap", toks: strings.Fields(
 		"b4.0.g.5000 s x.65535 s b6.1.g.5000 s f.rep4.0.0.3 s w.1 s w.0 s")})
+	// replies addressed to every kind of destination (host, router, other LAN host, broadcast, multicast;
+	// Ethernet destination ours / the router's / broadcast / multicast) for Ping, the ping-with-router-source
+	// and Ping6, answered inside the send (no waiting) and after it; ValidateDefaultRouter itself
+	{
+		var t []string
+		p := 0
+		for aux := 0; aux < 28; aux++ {
+			fam := []string{"q4", "qr"}[aux%2]
+			t = append(t, fmt.Sprintf("%s.%d.2000", fam, p), fmt.Sprintf("f.dst4.%d.0.%d", p, aux), fmt.Sprintf("z.%d.T", p), fmt.Sprintf("w.%d", p))
+			p++
+		}
+		scs = append(scs, scenario{next0: 500, class: "dst", toks: append(t, "s")})
+		t = nil
+		for aux := 0; aux < 20; aux++ {
+			t = append(t, fmt.Sprintf("q6.%d.2000", p), fmt.Sprintf("f.dst6.%d.0.%d", p, aux), fmt.Sprintf("z.%d.T", p), fmt.Sprintf("w.%d", p))
+			p++
+		}
+		scs = append(scs, scenario{next0: 600, class: "dst", toks: append(t, "s")})
+		scs = append(scs, scenario{next0: 700, class: "dst", toks: strings.Fields(
+			"vdr.0 s br.1.g.400 s f.dst4.1.0.1 s w.1 br.2.g.400 b4.3.g.400 f.dst4.3.0.8 f.dst4.2.0.15 s w.2 w.3 s vdr.4 s")})
+	}
+	// duplicate replies, 2-3 copies back to back and concurrently, while the call is inside its send and
+	// while it waits (IPv4, IPv6, router-source): the second notification must find no entry
+	scs = append(scs, scenario{next0: 800, class: "dup", toks: strings.Fields(
+		"q4.0.400 f.rep4.0.0.1 f.rep4.0.0.1 f.rep4.0.0.1 z.0.T s w.0 q6.1.400 f.rep6.1.0.2 f.rep6.1.0.2 z.1.T s w.1 " +
+			"b4.2.g.400 b6.3.g.400 br.4.g.400 s f.rep4.2.0.3 f.rep4.2.0.3 f.rep4.2.0.3 s f.rep6.3.0.4 f.rep6.3.0.4 s " +
+			"rp:f.dst4.4.0.1|f.dst4.4.0.1 f.dst4.4.0.1 s w.2 w.3 w.4 s f.rep4.2.0.3 f.rep6.3.0.4 s")})
 	// the timeout ARGUMENT domain, Ping and Ping6: answered inside the send (nil at once whatever the
 	// argument: 0, negative, 1 ns, typical, exactly 10 s, just above, huge) ...
 	sweep := []string{"0", "-1", "-5000", "n1", "1", "150", "10000", "n10000000001", "10001", "huge"}
